@@ -6,6 +6,7 @@
 import TypedpyModel.Drive.Wire
 import TypedpyModel.Drive.Serde
 import TypedpyModel.Sem.SerdeX
+import TypedpyModel.Spec.FragX
 namespace Typedpy.Drive.SerdeX
 open Lean (Json)
 open Typedpy Typedpy.Wire
@@ -74,6 +75,7 @@ def run (j : Json) : Except String Json := do
     match inst with
     | .ok x =>
       let s := serializeX XO cls x
+      out := out ++ [("inFrag", Json.bool (xFrag XO cls x))]
       out := out ++ [("ser", resToJson s)]
       match s with
       | .ok d =>
